@@ -249,14 +249,14 @@ R['C15'] = {
  "assumptions": ["reflect is modelled by the engine against go/types of the current source (struct field order, tags, exportedness, sizes)"],
  "outside_claim": ["longer block sequences and other list lengths", "RLE blocks with an odd number of chunks (recorded under C05)"]}
 R['C13'] = {
- "quick": [{"h":"VpC13","a":[[20,8],[20,65535]]},{"h":"VpC13_Skeleton","x":[rng(0,13),[-1,0,1,3]]},
+ "quick": [{"h":"VpC13","a":[[20,8],[20,65535]]},{"h":"VpC13_Skeleton","x":[rng(0,16),[-1,0,1,3]]},
            {"h":"VpC13_Run","x":[[0,1,3,7],[0,1]]},{"h":"VpC13_Chunkings","x":[[0,1,2,3,4],[0,1,2]]}],
- "thorough": [{"h":"VpC13","a":[[20,8],[20,65535]]},{"h":"VpC13_Skeleton","x":[rng(0,13),[-2,-1,0,1,2,3,4]]},
+ "thorough": [{"h":"VpC13","a":[[20,8],[20,65535]]},{"h":"VpC13_Skeleton","x":[rng(0,16),[-2,-1,0,1,2,3,4]]},
            {"h":"VpC13_Run","x":[[0,1,2,3,5,7],[0,1,2]]},{"h":"VpC13_Chunkings","x":[[0,1,2,3,4],[0,1,2,3,4]]}],
- "bounds": "header-only packets with any status count; 14 chunk sequences (run-length, one-bit and two-bit vector chunks and mixes, runs longer than the remaining count, vectors overshooting it, reserved symbol, empty run, exact fit) x {one octet short, exact, 1 and 3 surplus octets} with all header fields and delta octets symbolic; one run-length chunk with symbolic symbol and symbolic 13-bit run length for status counts {0,1,3,7} x delta areas of {0,1} octets; 5 pairs of different chunkings of the same status sequence; the decoder is compared with an independent expansion of the raw bytes",
+ "bounds": "header-only packets with any status count; 17 chunk sequences (run-length, one-bit and two-bit vector chunks and mixes, first and later runs longer than the remaining count, vectors overshooting it, reserved symbol, empty run, exact fit) x {one octet short, exact, 1 and 3 surplus octets} with all header fields and delta octets symbolic; one run-length chunk with symbolic symbol and symbolic 13-bit run length for status counts {0,1,3,7} x delta areas of {0,1} octets; 5 pairs of different chunkings of the same status sequence; the decoder is compared with an independent expansion of the raw bytes",
  "bounds_thorough": "as quick with more surplus/deficit octets, status counts {0,1,2,3,5,7} and delta areas of 0..2 octets for the symbolic run",
  "require_reach": ["reach:end","reach:accepted"], "opts": {"unwind": 200},
- "assumptions": ["status-chunk words are enumerated (14 sequences) or restricted to a single symbolic run-length chunk; packets whose chunk words are fully symbolic exceeded the solver budget and are outside the claim"],
+ "assumptions": ["status-chunk words are enumerated (17 sequences) or restricted to a single symbolic run-length chunk; packets whose chunk words are fully symbolic exceeded the solver budget and are outside the claim"],
  "outside_claim": ["arbitrary symbolic status vectors, more than 3 chunks, status counts above the bound, the uint16 counter wrap near 65535 (documented under C01)"]}
 
 cheap = [1,2,4,5,6,7,10,11,12,13,15,17,18,20,21,22,23]
